@@ -1,23 +1,6 @@
-"""Per-property MANIFEST entries.  tools/gen_manifest.py turns this into /verif/MANIFEST.json."""
+"""MANIFEST entries live in each property module (harness/props/cXX.py, attribute MANIFEST with keys
+text, note, technique, design_ref).  tools/gen_manifest.py collects them."""
 
 PENDING_REASON = ("no check registered yet: the Coq model/theorems and the tie for this property are planned "
                   "in DESIGN.md section 4 but not built at this commit")
-
-CHECKS = {
-    "C03": {
-        "text": "Proof. Coq theorems over an operational model of EventProcessor.pre_process/drain, Engine.run and "
-                "the shared module-level barrier, for arbitrary stage lists, callbacks, drains and inputs (no bound): "
-                "run = composition of per-stage stream functions with every barrier the identity "
-                "(C03_stream_compose), barrier separation of the time-ordered call log (C03_barrier_separates), drain "
-                "order/once/after-input (C03_drain_order). The model is tied to the code by a correspondence run: the "
-                "real EventProcessor/Engine/pipeline_barrier with recording callbacks vs the model evaluated by "
-                "vm_compute on the same graphs (exhaustive for short graphs, random for long ones).",
-        "note": "Trusted: Coq kernel + vm_compute; hand-written model Pipeline.v/C03Model.v tied by differential "
-                "testing only; behaviour alphabet of the tie stands for arbitrary callbacks; stream_compose needs "
-                "well-formedness (non-barrier stages own their context) - shared-context pairs are covered by the "
-                "log theorems and the tie, not by stream_compose. Print Assumptions: closed under the global context.",
-        "technique": "Coq proof (induction over stage list / input) + vm_compute correspondence against the real "
-                     "EventProcessor",
-        "design_ref": "DESIGN.md sections 3 and 4/C03",
-    },
-}
+NOT_APPLICABLE = {}
